@@ -47,6 +47,7 @@ def run(ctx):
         ctx.guard("C01", "digest-src", lambda: engine.digest_sources(ctx, prog))
         ctx.guard("C01", "digest-last", lambda: piece.digest_last_piece(ctx, prog))
         ctx.guard("C01", "summaries", lambda: summary.check(ctx, prog, 'internals::generate::(hashes::|BlockHashContext|Generator::(new|guessed_preferred_max_input_size_at)$)', floor=2))
+        ctx.guard("C01", "path summaries", lambda: summary.check_paths(ctx, prog, 'internals::generate::(hashes::|BlockHashContext|Generator::(new|guessed_preferred_max_input_size_at)$)', floor=0))
         ctx.guard("C01", "casts", lambda: casts.census(ctx, prog, scope='internals::generate::', floor=3))
         if c.startswith("unsafe"):
             ctx.guard("C01", "mirror", lambda: engine.mirror(ctx, prog))
